@@ -31,7 +31,7 @@ def evaluate(diff, props):
         for f in os.listdir(tmp):
             if f.endswith('.go') and not f.endswith('_test.go'):
                 new = open(os.path.join(tmp, f)).read()
-                if new != open(os.path.join('/repo', f)).read():
+                if not os.path.exists(os.path.join('/repo', f)) or new != open(os.path.join('/repo', f)).read():
                     files[os.path.join('/repo', f)] = new
         ov = os.path.join(tmp, 'overlay.json')
         json.dump(files, open(ov, 'w'))
